@@ -330,7 +330,7 @@ def reduced_to_double_bits(v):
 
 
 def run_cbmc(u, harness, hdefs, unwind, unwindset, safety, timeout, witness=False, trace=True, solver=None,
-             mem_gb=None, extra=None, reduced=False, cancel=None):
+             mem_gb=None, extra=None, reduced=False, cancel=None, safety_only=False):
     d = u['dir']
     cmd = ['cbmc', os.path.join(d, 'unit.c'), os.path.join(HARN, harness), '-I' + RT, '-I' + d, '-I' + HARN,
            '-I' + tables_dir(), '--function', 'fsv_harness'] + dflags(hdefs)
@@ -338,7 +338,7 @@ def run_cbmc(u, harness, hdefs, unwind, unwindset, safety, timeout, witness=Fals
         cmd.append('-DWITNESS')
     if reduced:
         cmd.append('-DFSV_FP_REDUCED')
-    if safety and not witness:
+    if safety_only and not witness:
         cmd.append('-DFSV_SAFETY_ONLY')
     cmd += CBMC_BASE
     if safety:
@@ -519,7 +519,7 @@ def run_query(q, prop, seed, outdir):
             r['unwindset_sources'] = desc
 
         def solve(witness):
-            kw = dict(witness=witness, trace=not witness, mem_gb=q.mem_gb, extra=q.extra, reduced=q.reduced)
+            kw = dict(witness=witness, trace=not witness, mem_gb=q.mem_gb, extra=q.extra, reduced=q.reduced, safety_only=(q.want == 'safety'))
             saf = q.safety and not witness
             if q.solver == 'race':
                 # SAT (cadical) and SMT (cvc5) side by side: cvc5 proves FP equalities by term sharing, SAT finds counter-examples fast
